@@ -31,6 +31,9 @@ PREDICATES = [
     dict(tag="reg14c", pred="CatRow.regOk {db}", imports=["Barril.Model.RegTable"], kinds=["simple"], over="cats"),
     dict(tag="reg14ct", pred="CatRow.regOkT Barril.Gen.poscTree Barril.Gen.poscBases {db}",
          imports=["Barril.Model.RegIndex", "Barril.Gen.PoscTree", "Barril.Gen.PoscBases"], kinds=["posc"], over="cats"),
+    # C20: a registered unit name is never shared by units of different quantity types (GetUnitName joins the
+    # exponents of a derived quantity per unit NAME)
+    dict(tag="nameown", pred="UnitRow.nameOwnType {db}", imports=["Barril.Model.StrTable"], kinds=["posc"], over="units"),
     dict(tag="valshape", pred="UnitRow.valShape", imports=["Barril.Model.Valid"], kinds=["posc", "nocat"], over="units"),
 ]
 
